@@ -195,12 +195,13 @@ def strat_sharded(tier):
     nb = draw(st.integers(0, 10))
     data = [{'a': [draw(st.integers(0, 9)) for _ in range(draw(st.integers(1, 3)))]} for _ in range(nb)]
     mode = draw(st.sampled_from(['faults', 'faults', 'faults', 'app_error', 'budget']))
-    shape = {'filter': draw(st.booleans()), 'second_agg': draw(st.booleans())}
+    shape = {'filter': draw(st.booleans()), 'second_agg': draw(st.booleans()), 'chain2': draw(st.sampled_from([False, False, True]))}
     case = {'data': data, 'shape': shape, 'workers': workers, 'shards': draw(st.sampled_from([1, 2, 3, 4, 6])),
             'iterate_batch_size': draw(st.sampled_from([1, 2, 3])), 'prefetch_size': draw(st.integers(1, 3)),
             'rseed': draw(st.integers(0, 10**6))}
     if mode == 'app_error':
       shape['poison'] = [draw(st.integers(0, 9))]
+      shape['chain2'] = False
       case['plan'] = {}
     elif mode == 'budget':
       # every worker times out on its first calls and the budget is tiny
